@@ -194,7 +194,13 @@ def skip_region(inner='qq \\zz{x} $'):
 
 def removed_env(name='tikzpicture', inner='\\draw (0,0) -- (1,1);'):
     s = '\\begin{' + name + '}' + inner + '\\end{' + name + '}'
-    return N(s, hid=[(len(name) + 8, len(name) + 8 + len(inner))], spans=[(0, len(s))])
+    # an undeclared macro inside a removed environment is still "used outside maths" (C19)
+    import re as _re
+    unk = []
+    for m in _re.findall(r'\\[A-Za-z]+', inner):
+        if m not in unk:
+            unk.append(m)
+    return N(s, hid=[(len(name) + 8, len(name) + 8 + len(inner))], spans=[(0, len(s))], unk=unk)
 
 
 def unknown(name, *args, star='', gap=''):
